@@ -33,6 +33,9 @@ func main() {
 			os.Exit(2)
 		}
 		c := NewCtx(prop, *tier, s, *out)
+		if prop != "C06" {
+			otherConfigurationsFirst()
+		}
 		r(c)
 		c.Close()
 	default:
